@@ -1227,23 +1227,23 @@ pub fn run(ctx: &mut Ctx) {
     }
     let mut rng = ctx.rng.fork();
     other::corpus(ctx);
-    let dicts = ctx.budget(700, 1500);
+    let dicts = ctx.budget(700, 3000);
     for _ in 0..dicts {
         one_dictionary(ctx, &mut rng, 40);
     }
-    let seqs = ctx.budget(1000, 4000);
+    let seqs = ctx.budget(1000, 8000);
     for _ in 0..seqs {
         other::insertion_order(ctx, &mut rng);
     }
-    let merges = ctx.budget(300, 1500);
+    let merges = ctx.budget(300, 3000);
     for _ in 0..merges {
         other::merges(ctx, &mut rng);
     }
-    let fsts = ctx.budget(150, 600);
+    let fsts = ctx.budget(150, 1200);
     for _ in 0..fsts {
         other::fst_termdict(ctx, &mut rng);
     }
-    let cols = ctx.budget(80, 300);
+    let cols = ctx.budget(80, 600);
     for _ in 0..cols {
         other::columnar(ctx, &mut rng);
     }
